@@ -352,7 +352,7 @@ func c04Long(r *mon.Run) {
 			lxs = append(lxs, lx{c(q), true, fmt.Sprintf("quoted identifier %s (context %d)", q, ci)})
 		}
 	}
-	nums := []string{"0", "00", "000", "07", "08", "09", "010", "018", "0019", "-0", "-00", "-08", "-09", "-010", "1", "-1", "9", "19", "99", "0x1", "1e1", "1.0", "+1", "--1", "- 1", "١", "1_0", "9223372036854775807", "-9223372036854775808", "0000000000000000000009"}
+	nums := []string{"0", "00", "000", "07", "08", "09", "010", "018", "0019", "-0", "-00", "-08", "-09", "-010", "1", "-1", "9", "19", "99", "0x1", "1e1", "1.0", "+1", "--1", "- 1", "١", "1_0", "9223372036854775807", "-9223372036854775808", "0000000000000000000009", "-", "--", "-\t1", "-\u0661", "1-", "-1-", "-0-"}
 	for _, n := range nums {
 		ok := true
 		digits := strings.TrimPrefix(n, "-")
@@ -387,6 +387,40 @@ func c04Long(r *mon.Run) {
 			for q, c := range lctx {
 				lxs = append(lxs, lx{c(lit), ok, fmt.Sprintf("JSON literal %q (corruption %d, context %d)", body, k, q)})
 			}
+		}
+	}
+	// characters that are white space for Unicode, Go or JSON but not for JMESPath (only space, tab, LF, CR are): alone between two
+	// tokens and next to a legal blank on either side, at the start and at the end - never skipped, always an error
+	for _, sp := range []string{"\v", "\f", "\u0085", "\u00a0", "\u1680", "\u2000", "\u2003", "\u200a", "\u2028", "\u2029", "\u202f", "\u205f", "\u3000", "\ufeff", "\u200b", "\u001c", "\u001f", "\x00", "\u180e"} {
+		for _, pre := range []string{"", " ", "\t", "\n", "\r", " \t"} {
+			for _, post := range []string{"", " ", "\n"} {
+				w := pre + sp + post
+				for k, f := range []string{"a%s| b", "a |%sb", "%sa", "a%s", "a[%s0]", "f(%sa)", "[a,%sb]", "a .%sb", "a%s.b"} {
+					if (len(pre)+len(post)+k)%2 == 1 && pre != "" {
+						continue
+					}
+					lxs = append(lxs, lx{strings.Replace(f, "%s", w, 1), false, fmt.Sprintf("%q between tokens (form %d)", w, k)})
+				}
+			}
+		}
+	}
+	// no character beyond ASCII is part of an unquoted identifier or of any token: every code point of the basic plane (and a
+	// sample beyond) directly after, inside and before an identifier
+	for cp := rune(0x80); cp <= 0x10FFFF; cp++ {
+		if cp >= 0xD800 && cp <= 0xDFFF {
+			continue
+		}
+		if cp > 0xFFFF && cp%257 != 0 {
+			continue
+		}
+		if cp > 0x2FFF && cp <= 0xFFFF && cp%3 != 0 && cp&0xFF != 0x61 && cp&0xFF != 0x5F && cp&0xFF != 0x30 {
+			continue
+		}
+		c := string(cp)
+		form := []string{"foo" + c, "foo" + c + "bar", "a.b" + c, c + "a", "{k" + c + ": v}", "foo" + c + "[0]"}[int(cp)%6]
+		lxs = append(lxs, lx{form, false, fmt.Sprintf("U+%04X next to an identifier", cp)})
+		if cp&0xFF == 0x61 || cp&0xFF == 0x5F || cp&0xFF == 0x30 || cp < 0x800 {
+			lxs = append(lxs, lx{"foo" + c, false, fmt.Sprintf("U+%04X at the end of an identifier", cp)}, lx{"a" + c + "b.c", false, fmt.Sprintf("U+%04X inside an identifier", cp)})
 		}
 	}
 	// scalars as a hand-written scanner might read them: what strconv, a lenient number parser or a keyword table takes
